@@ -9,13 +9,15 @@ use std::sync::atomic::{AtomicU64, Ordering};
 use std::sync::mpsc::{channel, Receiver, RecvTimeoutError};
 use std::time::{Duration, Instant};
 
-pub const CLI: &str = "/verif/target/repo/release/cgt-tool";
+pub fn cli() -> String {
+    format!("{}/target/repo/release/cgt-tool", crate::runner::verif_dir())
+}
 pub const CHILD_TIMEOUT: Duration = Duration::from_secs(60);
 
 static COUNTER: AtomicU64 = AtomicU64::new(0);
 
 pub fn cli_available() -> bool {
-    Path::new(CLI).exists()
+    Path::new(&cli()).exists()
 }
 
 /// Inconclusive exit (never a violation): infrastructure problems, watchdog.
@@ -31,7 +33,7 @@ pub struct Scratch {
 impl Scratch {
     pub fn new(label: &str) -> Scratch {
         let n = COUNTER.fetch_add(1, Ordering::SeqCst);
-        let dir = PathBuf::from(format!("/verif/target/scratch/{}-{}-{}", std::process::id(), label, n));
+        let dir = PathBuf::from(format!("{}/target/scratch/{}-{}-{}", crate::runner::verif_dir(), std::process::id(), label, n));
         let _ = std::fs::remove_dir_all(&dir);
         if let Err(e) = std::fs::create_dir_all(dir.join("home")) {
             inconclusive(&format!("cannot create scratch dir {}: {e}", dir.display()));
@@ -99,9 +101,9 @@ pub fn run_cli(sc: &Scratch, args: &[&str]) -> CliOut {
 
 pub fn run_cli_in(sc: &Scratch, cwd: &Path, args: &[&str]) -> CliOut {
     if !cli_available() {
-        inconclusive(&format!("{CLI} not built"));
+        inconclusive(&format!("{} not built", cli()));
     }
-    let mut child = match Command::new(CLI)
+    let mut child = match Command::new(cli())
         .args(args)
         .current_dir(cwd)
         .env("HOME", sc.home())
@@ -158,13 +160,13 @@ impl Mcp {
     /// Start `cgt-tool mcp` in a scratch directory (all-years config if `all_years`).
     pub fn start(all_years: bool) -> Mcp {
         if !cli_available() {
-            inconclusive(&format!("{CLI} not built"));
+            inconclusive(&format!("{} not built", cli()));
         }
         let sc = Scratch::new("mcp");
         if all_years {
             sc.write_all_years_config();
         }
-        let mut child = match Command::new(CLI)
+        let mut child = match Command::new(cli())
             .arg("mcp")
             .current_dir(&sc.dir)
             .env("HOME", sc.home())
